@@ -48,7 +48,7 @@ struct Ev { int kind; int frame; long a; long t; };
 bool is_body(int k) { return k == E_ENTER || k == E_LEAF_START || k == E_RESUME || k == E_CATCH || k == E_RETURN || k == E_AWAITABLE; }
 
 struct LeafSpec { int chan = VALUE; int timing = 0; int ctx = 0; int on_stop = 1; };
-enum StepKind { S_LOCAL, S_LEAF, S_CHILD, S_CHILD_OPT, S_TRY_CHILD, S_CLEANUP, S_THROW, S_STOP, S_SIR, S_AWAITABLE, S_AS_SENDER, S_TRY_LEAF, S_CHILD_MOVED, NSTEPKINDS };
+enum StepKind { S_LOCAL, S_LEAF, S_CHILD, S_CHILD_OPT, S_TRY_CHILD, S_CLEANUP, S_THROW, S_STOP, S_SIR, S_AWAITABLE, S_AS_SENDER, S_TRY_LEAF, S_CHILD_MOVED, S_PAYLOAD, NSTEPKINDS };
 constexpr int LEGACY_NSTEPKINDS = 12;
 struct Step { int kind; int a = 0; int b = 0; };
 struct Node { std::vector<Step> steps; };
@@ -221,6 +221,22 @@ unifex::task<void> cleanup_action(int f, int k, bool awaits) {
   co_return;
 }
 
+// a task whose result type has a noexcept move but a copy that may throw, returned by copy from a const object: an exception thrown while
+// the co_return operand is converted into the result is an escaped exception like any other (set_error / rethrown in the parent)
+bool g_payload_copy_throws = false;
+struct Payload {
+  long v;
+  explicit Payload(long x) noexcept : v(x) {}
+  Payload(Payload&& o) noexcept : v(o.v) {}
+  Payload(const Payload& o) : v(o.v) { if (g_payload_copy_throws) { g_payload_copy_throws = false; throw ProgErr{777}; } }
+  Payload& operator=(Payload&&) noexcept = default;
+};
+unifex::task<Payload> payload_task(bool throws, ArgGuard = ArgGuard{}) {
+  const Payload p{55};
+  g_payload_copy_throws = throws;
+  co_return p;
+}
+
 unifex::task<long> run_node(int n, ArgGuard = ArgGuard{});
 unifex::task<long> run_node(int n, ArgGuard) {
   Env& e = E();
@@ -257,6 +273,7 @@ unifex::task<long> run_node(int n, ArgGuard) {
         catch (const ProgErr& x) { E().ev(E_CATCH, f, 2000000 + x.code); v = -6; }
         acc = (long)((unsigned long)acc * 31u + (unsigned long)v); break;
       }
+      case S_PAYLOAD: { E().ev(E_AWAITABLE, f, 900 + st.b); Payload pl = co_await payload_task(st.b != 0); g_payload_copy_throws = false; E().ev(E_RESUME, f, pl.v); acc = (long)((unsigned long)acc * 31u + (unsigned long)pl.v); break; }
       case S_CLEANUP: co_await unifex::at_coroutine_exit(cleanup_action, (int)f, (int)st.a, (bool)(st.b != 0)); break;
       case S_THROW: throw ProgErr{(long)st.a};
       case S_STOP: co_await unifex::stop(); break;
@@ -335,6 +352,12 @@ struct Model {
           else { out = r; exited = true; }
           break;
         }
+        case S_PAYLOAD: {
+          ev(E_AWAITABLE, f, 900 + st.b);
+          if (st.b) { out = MOut{ERROR, 0, 2000000 + 777}; exited = true; }
+          else { ev(E_RESUME, f, 55); acc = (long)((unsigned long)acc * 31u + (unsigned long)55); }
+          break;
+        }
         case S_CLEANUP: frames[(size_t)f].cleanups.push_back(st.a); break;
         case S_THROW: out = MOut{ERROR, 0, 2000000 + st.a}; exited = true; break;
         case S_STOP: out = MOut{DONE, 0, 0}; exited = true; break;
@@ -404,6 +427,7 @@ void vk_run_case(vk::Choice& c) {
       bool has_child = n + 1 < nnodes;
       if ((st.kind == S_CHILD || st.kind == S_CHILD_OPT || st.kind == S_TRY_CHILD || st.kind == S_CHILD_MOVED)) { if (!has_child) st.kind = S_LEAF; else st.a = n + 1 + (int)c.upto((uint32_t)(nnodes - n - 1)); }
       if (st.kind == S_CHILD_MOVED) st.b = (int)c.upto(4);
+      if (st.kind == S_PAYLOAD) st.b = c.chance(1, 2) ? 1 : 0;
       if (st.kind == S_CLEANUP) { st.a = cleanup_id++; st.b = (int)c.upto(2); any_cleanup = true; }
       if (st.kind == S_THROW) { st.a = 10 * n + s; if (!c.chance(1, 3)) st.kind = S_LEAF; }
       if (st.kind == S_STOP && !c.chance(1, 3)) st.kind = S_LEAF;
@@ -419,8 +443,8 @@ void vk_run_case(vk::Choice& c) {
   e.stop_at_occ = c.chance(1, 2) ? (long)c.upto(8) : -1;
   {
     std::string d = "program:";
-    static const char* sk[] = {"local", "await-sender", "child", "opt(child)", "try{child}", "at_exit", "throw", "stop()", "stop_if_requested", "awaitable", "as_sender(awaitable)", "try{await-sender}", "moved-task(child)"};
-    for (int n = 0; n < nnodes; ++n) { d += vk::sfmt(" node%d[", n); for (auto& st : e.nodes[(size_t)n].steps) d += vk::sfmt("%s%s ", sk[st.kind], (st.kind == S_CHILD || st.kind == S_CHILD_OPT || st.kind == S_TRY_CHILD) ? vk::sfmt("->%d", st.a).c_str() : st.kind == S_CHILD_MOVED ? vk::sfmt("->%d/%s", st.a, st.b == 0 ? "assigned-over-unstarted" : st.b == 1 ? "move-constructed" : st.b == 2 ? "extra-task-dropped" : "moved+reassigned").c_str() : st.kind == S_CLEANUP ? vk::sfmt("#%d%s", st.a, st.b ? "+sender" : "").c_str() : (st.kind == S_AWAITABLE || st.kind == S_AS_SENDER) ? vk::sfmt("(%s,%s,%s)", st.b & 16 ? "resumed-inside-await_suspend" : st.b & 1 ? "suspends" : "ready", st.b & 2 ? "throws" : "value", ((st.b >> 2) & 3) == 1 ? "bool await_suspend" : ((st.b >> 2) & 3) == 2 ? "handle await_suspend" : "void await_suspend").c_str() : ""); d += "]"; }
+    static const char* sk[] = {"local", "await-sender", "child", "opt(child)", "try{child}", "at_exit", "throw", "stop()", "stop_if_requested", "awaitable", "as_sender(awaitable)", "try{await-sender}", "moved-task(child)", "await-task<Payload>(co_return by copy)"};
+    for (int n = 0; n < nnodes; ++n) { d += vk::sfmt(" node%d[", n); for (auto& st : e.nodes[(size_t)n].steps) d += vk::sfmt("%s%s ", sk[st.kind], (st.kind == S_CHILD || st.kind == S_CHILD_OPT || st.kind == S_TRY_CHILD) ? vk::sfmt("->%d", st.a).c_str() : st.kind == S_CHILD_MOVED ? vk::sfmt("->%d/%s", st.a, st.b == 0 ? "assigned-over-unstarted" : st.b == 1 ? "move-constructed" : st.b == 2 ? "extra-task-dropped" : "moved+reassigned").c_str() : st.kind == S_PAYLOAD ? (st.b ? "(copy throws)" : "(copy ok)") : st.kind == S_CLEANUP ? vk::sfmt("#%d%s", st.a, st.b ? "+sender" : "").c_str() : (st.kind == S_AWAITABLE || st.kind == S_AS_SENDER) ? vk::sfmt("(%s,%s,%s)", st.b & 16 ? "resumed-inside-await_suspend" : st.b & 1 ? "suspends" : "ready", st.b & 2 ? "throws" : "value", ((st.b >> 2) & 3) == 1 ? "bool await_suspend" : ((st.b >> 2) & 3) == 2 ? "handle await_suspend" : "void await_suspend").c_str() : ""); d += "]"; }
     d += " senders:";
     for (auto& s : e.leaf) d += vk::sfmt(" {%s %s ctx%d on_stop=%d}", sr::chan_name(s.chan), s.timing ? "deferred" : "inline", s.ctx, s.on_stop);
     d += vk::sfmt(" stop_at_sender#%ld", e.stop_at_occ);
